@@ -46,7 +46,7 @@ def _(c):
                          is_insert(S0.t(MS), S1.t(MS), {"mailbox_id": m, "opened": BoolVal(True), "side": side,
                                                         "added": when})), ["C14", "C05", "C08", "C10"]
     yield "touch", is_update(S0.t(MB), S1.t(MB), lambda r: r.id == m, {"updated": when}), ["C12"]
-    yield "committed", Not(S1.in_tx["ch"]), ["C09"]
+    yield "committed", Not(S1.in_tx["ch"]), ["C09", "C05", "C08", "C10", "C11", "C12"]
 
 
 # ---------------------------------------------------------------- get_messages
@@ -108,7 +108,7 @@ def _(c):
     yield "touch", is_update(S0.t(MB), S1.t(MB), lambda r: r.id == m,
                              {"updated": to_term(sm["server_rx"], "real")}), ["C12"]
     # C09, and C01: a stored message survives a restart only if it was committed
-    yield "committed", Not(S1.in_tx["ch"]), ["C09", "C01"]
+    yield "committed", Not(S1.in_tx["ch"]), ["C09", "C01", "C10", "C11"]
 
 
 # ---------------------------------------------------------------- listeners
@@ -123,7 +123,8 @@ def LS(S):
 
 c = contract("server.Mailbox.add_listener", cls="Mailbox",
              params={"handle": "ref:WebSocketServer", "send_f": "callback:send:handle", "stop_f": "callback:stop:handle"},
-             result="list:sm@rowlist:ch.messages", modifies=["heap.Mailbox._listeners"], tags=["C01", "C02", "C17"])
+             result="list:sm@rowlist:ch.messages", modifies=["heap.Mailbox._listeners"],
+             tags=["C01", "C02", "C05", "C08", "C12", "C13", "C14", "C17"])
 
 
 @c.ensures
@@ -135,7 +136,7 @@ def _(c):
 
 
 c = contract("server.Mailbox.remove_listener", cls="Mailbox", params={"handle": "ref:WebSocketServer"},
-             modifies=["heap.Mailbox._listeners"], tags=["C02", "C08", "C17"])
+             modifies=["heap.Mailbox._listeners"], tags=["C01", "C02", "C05", "C08", "C12", "C13", "C14", "C17"])
 
 
 @c.ensures
@@ -206,7 +207,7 @@ def _(c):
     yield "each_listener_once", fanout(c.pre, c.post, lambda cn: ls[cn], c.a.sm), ["C02"]
 
 
-@c.loop(0, modifies=["out"], tags=["C02"])
+@c.loop(0, modifies=["out"], tags=["C02"], over="self._listeners.values()")
 def _(c, L):
     yield "done_got_it", fanout(c.pre, c.post, lambda cn: L.done(cn), c.a.sm)
 
@@ -233,7 +234,7 @@ def _(c):
         "msg_id": to_term(sm["msg_id"], "json")}), ["C01", "C02"]
     yield "touch", is_update(S0.t(MB), S1.t(MB), lambda r: r.id == m,
                              {"updated": to_term(sm["server_rx"], "real")}), ["C12"]
-    yield "committed", Not(S1.in_tx["ch"]), ["C09", "C01"]
+    yield "committed", Not(S1.in_tx["ch"]), ["C09", "C01", "C10", "C11"]
     ls = LS(S0)[c.self_ref]
     yield "fanout", fanout(S0, S1, lambda cn: ls[cn], c.a.sm), ["C02"]
 
@@ -342,7 +343,7 @@ def _(c):
                                     And(FA([INT], lambda h: cm1[h] == If(ls0[me][h], 0, cm0[h]), pats=lambda h: [cm1[h]]),
                                         FA([INT], lambda h: cl1[h] == If(ls0[me][h], False, cl0[h]), pats=lambda h: [cl1[h]])),
                                     And(cm1 == cm0, cl1 == cl0)), ["C02", "C08", "C13"]
-    yield "committed", I.Clean(S1), ["C09"]
+    yield "committed", I.Clean(S1), ["C09", "C01", "C07", "C08", "C10", "C11", "C15"]
     # H4/H5 (C02, C13, C01): nobody stays subscribed to a Mailbox object whose row is gone (F5)
     from . import heapinv as HI
     yield "preserves.GH5", HI.GH5(S1), ["C02", "C13", "C01"]
@@ -357,7 +358,7 @@ def np_usage_rel(U0, U1, ns0, n, a, when):
         t for _, t, _ in np_summary_spec(None, when, BoolVal(False), *row_usage(row), member=nmember, added=nadded)]))
 
 
-@c.loop(0, modifies=[NS, UNP, "in_tx.ch", "in_tx.us"], tags=["C07", "C08", "C15", "C06"])
+@c.loop(0, modifies=[NS, UNP, "in_tx.ch", "in_tx.us"], tags=["C07", "C08", "C15", "C06"], over="np_rows")
 def _(c, L):
     """nameplate clean-up loop: the side rows of the nameplates processed so far are gone (and
     summarised); by I6 at most one nameplate points at the mailbox"""
@@ -374,7 +375,8 @@ def _(c, L):
     yield "untouched_before_first", Implies(L.k == 0, And(arrays_equal(E.t(NS), S.t(NS)), arrays_equal(E.t(UNP), S.t(UNP))))
 
 
-@c.loop(1, modifies=["heap.WebSocketServer._mailbox", "heap.WebSocketServer._listening"], tags=["C02", "C08", "C13"])
+@c.loop(1, modifies=["heap.WebSocketServer._mailbox", "heap.WebSocketServer._listening"], tags=["C02", "C08", "C13"],
+        over="self._listeners.values()")
 def _(c, L):
     """stop loop: every listener processed so far has dropped its handle; the others are untouched"""
     E, S = L.entry, c.post
